@@ -23,6 +23,17 @@ static inline int64_t spec_ub_int_value(const uint8_t* p, int* ok)
     if (n >= 8) { v = (v << 8) | p[5]; v = (v << 8) | p[6]; v = (v << 8) | p[7]; v = (v << 8) | p[8]; }
     switch (p[0]) { case 'i': return (int8_t)v; case 'U': return (int64_t)v; case 'I': return (int16_t)v; case 'l': return (int32_t)v; default: return (int64_t)v; }
 }
+/* the same with the marker given separately from the payload bytes (a decoder that has already consumed the marker) */
+static inline int64_t spec_ub_int_payload_value(uint8_t marker, const uint8_t* q)
+{
+    int n = spec_ub_int_size(marker);
+    uint64_t v = 0;
+    if (n >= 1) v = q[0];
+    if (n >= 2) v = (v << 8) | q[1];
+    if (n >= 4) { v = (v << 8) | q[2]; v = (v << 8) | q[3]; }
+    if (n >= 8) { v = (v << 8) | q[4]; v = (v << 8) | q[5]; v = (v << 8) | q[6]; v = (v << 8) | q[7]; }
+    switch (marker) { case 'i': return (int8_t)v; case 'U': return (int64_t)v; case 'I': return (int16_t)v; case 'l': return (int32_t)v; default: return (int64_t)v; }
+}
 /* smallest total size (marker + payload) of an integer item that can hold v */
 static inline int spec_ub_int_min_size(int64_t v)
 {
